@@ -573,6 +573,10 @@ def _check_counts(prog: Program, res: Result):
     eng = Engine(prog, dfi, Hooks())
     st = State()
     found = False
+    from ..model import stored_param_aliases
+
+    for p_, chain_ in stored_param_aliases(prog, dfi).items():
+        st.env[p_] = Rat.atom(chain_)  # the constraints object handed in is the one the (base) constructor stores on self
     for s in dfi.node.body:
         if isinstance(s, ast.Assign) and len(s.targets) == 1 and isinstance(s.targets[0], ast.Name):
             eng._s_Assign(s, st)
